@@ -34,7 +34,8 @@ COMPONENTS = {
 PROBES = ["final-sample clamp fired (total > N t)", "null mean hit 0 before cut", "null mean > u before cut",
           "null mean negative before cut", "cut at 1", "cut at n-1", "truncation lowered the k-th entry",
           "call raised", "whole-number sample handed over as ints", "rounds evaluated on views of one buffer",
-          "SPRT alternative recovered from two futures", "sample longer than 4096 draws",
+          "SPRT alternative recovered from two futures", "alternative recovered from two futures", "bet recovered from two futures",
+          "sample longer than 4096 draws",
           "estimator / bettor asked again after another sample of the same length was tested"]
 
 
@@ -251,6 +252,35 @@ def execute(case):
                     out.violate("C05.c", f"{name}/{cfg['mode']}/implied-alternative",
                                 f"after the same {k} draws the SPRT applies alternative {etas[0]!r} when draw {k + 1} is {x[k]} "
                                 f"but {etas[1]!r} when it is {y[0]} (N={N}, null mean {m!r})")
+    # the same for the ALPHA martingale (same factor, alternative eta_j) and for the betting martingale (factor
+    # 1 + lambda (x - m): the implied bet is (factor - 1)/(x - m)), whatever estimator / bettor is plugged in
+    if (cfg["test"] in ("ALPHA_MART", "BETTING_MART") and a is not None and b is not None and k >= 1
+            and len(a[1]) > k and len(b[1]) > k and x[k] != y[0]):
+        u_, t_ = cfg["u"], cfg["t"]
+        m = (N * t_ - sum(x[:k])) / (N - k) if N != D.INF else t_
+        pa0, pa1, pb1 = float(a[1][k - 1]), float(a[1][k]), float(b[1][k])
+        if 0 < m < u_ and all(0 < v < 1 for v in (pa0, pa1, pb1)):
+            vals = []
+            for xv, p1 in ((x[k], pa1), (y[0], pb1)):
+                factor = pa0 / p1
+                if cfg["test"] == "ALPHA_MART":
+                    den = xv / m - (u_ - xv) / (u_ - m)
+                    if abs(den) < 1e-6:
+                        vals = []
+                        break
+                    vals.append((factor * u_ - (u_ - xv) * u_ / (u_ - m)) / den)
+                else:
+                    if abs(xv - m) < 1e-6:
+                        vals = []
+                        break
+                    vals.append((factor - 1) / (xv - m))
+            if len(vals) == 2:
+                what = "alternative" if cfg["test"] == "ALPHA_MART" else "bet"
+                out.probe(f"{what} recovered from two futures")
+                if abs(vals[0] - vals[1]) > 1e-7 * max(1.0, abs(vals[0])):
+                    out.violate("C05.c", f"{name}/{cfg['mode']}/implied-{what}",
+                                f"after the same {k} draws the test applies {what} {vals[0]!r} when draw {k + 1} is {x[k]} "
+                                f"but {vals[1]!r} when it is {y[0]} (N={N}, null mean {m!r})")
     # C05.c  alternative / bet applied to draw j ignores draws j, j+1, ...
     for label, fn, used in (("estim", tst.estim, cfg["test"] == "ALPHA_MART"),
                             ("bet", tst.bet, cfg["test"] == "BETTING_MART")):
